@@ -230,6 +230,10 @@ def features(hy, tree):
     f["falsy_literal_truth_tested"] = assert_falsy or tp_falsy
     f["star_wildcard"] = any(_head(hy, n) == "unpack-iterable" and len(n) == 2 and n[1] == m.Symbol("_") for n in nodes) \
         and any(_head(hy, n) == "match" for n in nodes)
+    def as_wild(n):
+        kids = list(n) if isinstance(n, (m.Sequence, list, tuple)) else []
+        return any(isinstance(a, m.Keyword) and a.name == "as" and isinstance(b, m.Symbol) and str(b) == "_" for a, b in zip(kids, kids[1:]))
+    f["as_wildcard"] = any(as_wild(n) for n in nodes) and any(_head(hy, n) == "match" for n in nodes)
     f["has_nonlocal"] = any(_head(hy, n) == "nonlocal" and len(n) >= 2 for n in nodes)
     f["bare_unpack_mapping"] = any(_head(hy, n) == "unpack-mapping" and len(n) == 1 for n in nodes)
     f["dot_pattern_short"] = any(_head(hy, n) == "." and len(n) == 2 for n in nodes) and any(_head(hy, n) == "match" for n in nodes)
